@@ -1,11 +1,11 @@
-\* trace validation, calls with two items
-SPECIFICATION TraceSpec
+\* generated by spec/getter/gen_cfgs.sh -- MC_thorough_samples2c
+SPECIFICATION Spec
 CONSTANTS
-  ReqTypes <- TypesAll
+  ReqTypes <- TypesSamples
   NItems = 2
-  MaxAnswers = 8
-  Chains <- ChainsAll
-  NPeers = 20
+  MaxAnswers = 1
+  Chains <- ChainsCascade
+  NPeers = 2
   BlockStores <- StoresAll
   ClearOnFail = TRUE
   FreshDecode = FALSE
@@ -14,7 +14,7 @@ CONSTANTS
   CanonDecode = FALSE
   QuietCtxOnly = FALSE
 INVARIANTS
-  Accept
+  TypeOK
   OnlyVerified
   SuccessComplete
   NoPoisoning
@@ -24,5 +24,5 @@ INVARIANTS
   BlockStoreSink
   PopulationRule
   BufferClean
-POSTCONDITION Report
+VIEW View
 CHECK_DEADLOCK FALSE
